@@ -432,9 +432,7 @@ def scenarios(tier, seed):
             out.append(("sum", {"kind": kind, "inv": inv}))
     out.append(("enabler", {"n": 1, "start_from_zero": False}))
     out.append(("enabler", {"n": 1, "start_from_zero": True}))
-    if tier == "thorough":
-        out.append(("enabler", {"n": 2, "start_from_zero": False}))
-        out.append(("enabler", {"n": 2, "start_from_zero": True}))
+    # SamplingEnabler with n = 2 (CG on a symbolic 2x2 system inside the sampler) does not finish within 20 minutes: not claimed
     return out
 
 
@@ -462,9 +460,9 @@ META = {
                           "nifty.cl.operators.sampling_enabler.SamplingEnabler.{special_draw_sample,draw_sample}",
                           "nifty.cl.minimization.conjugate_gradient.ConjugateGradient.__call__ (n <= 2)",
                           "nifty.cl.field.Field.from_random, nifty.cl.sugar.from_random"],
-    "bounds": {"pixels": "2 (3 for block-diagonal, 4 for partial-space diagonal)", "SamplingEnabler": "n = 1 (quick), n = 2 diagonal (thorough)"},
+    "bounds": {"pixels": "2 (3 for block-diagonal, 4 for partial-space diagonal)", "SamplingEnabler": "n = 1 (n = 2 does not finish and is not claimed)"},
     "stubs": shims_cl.STUBS[:8] + ["nifty.cl.random.Random.normal: returns mean + std*xi for harness-supplied white noise xi (symbolic, unit vectors or zero); "
                                    "the statistical quality of NumPy's generator is outside the claim"],
-    "outside": ["statistical quality of the generator", "SamplingEnabler beyond n = 2", "float32 sampling dtypes"],
+    "outside": ["statistical quality of the generator", "SamplingEnabler beyond n = 1", "float32 sampling dtypes"],
     "assumptions": ["diagonal entries / factors positive where a covariance is expected"],
 }
